@@ -966,14 +966,17 @@ fn lzip_trailing_garbage_ok(orig: &[u8], damaged: &[u8], got: usize) -> bool {
     let mut sum = 0usize;
     for (i, m) in members.iter().enumerate() {
         sum += m.data_size as usize;
-        if sum == got && i + 1 >= 1 {
+        if sum == got {
+            // (empty members make several boundaries match the same byte count: any of them will do)
             let next = m.start + m.len;
             // members before `next` must be untouched
-            if damaged.len() < next || damaged[..next] != orig[..next] {
-                return false;
+            if damaged.len() >= next && damaged[..next] == orig[..next] {
+                let tail = &damaged[next..];
+                if !(tail.len() >= 4 && &tail[..4] == b"LZIP") {
+                    return true;
+                }
             }
-            let tail = &damaged[next..];
-            return !(tail.len() >= 4 && &tail[..4] == b"LZIP");
+            let _ = i;
         }
         if sum > got {
             break;
